@@ -7,8 +7,15 @@ E  every tree of a structure family (config / menuconfig / choice / menu / if / 
    files.  NAMES AT THE DOCUMENTED LIMITS: Kconfig programs in which every defined name (config / menuconfig / choice /
    choice member) is exactly 50 and exactly 49 characters long, and programs whose sibling names share a prefix of
    exactly 3 characters; rename lines whose NEW name (plain and behind `!`) is exactly 50 / 49 characters long without
-   the CONFIG_ prefix, whose OLD name is 50 / 51 characters long, and both at 50.  Every file is then mangled at every
-   single site and at every pair of sites (alphabet below) and by four global manglings.
+   the CONFIG_ prefix, whose OLD name is 50 / 51 characters long, and both at 50.
+   ODD CHARACTERS IN THE TEXTS: a program with every kind of text (help lines, prompts of config / menuconfig / choice /
+   menu / comment / mainmenu, string defaults, string literals in conditions, `#` comment lines, trailing `#` comments) and
+   rename files with comment lines / trailing comments, in which a text carries -- between two of its characters -- one
+   character of {VT, FF, FS, GS, RS, NEL, U+2028, U+2029 (where str.splitlines() cuts, an LF-oriented reader and the parsers do
+   not); US, NBSP, U+3000 (white space for str.split() and the regex class of white space); U+200B, e-acute, DEL; a tabulator (quoted strings only:
+   there it is data)}: every (text, character) alone, and every text of the file at once.
+   Every file (the one-text files of the odd-character family excepted) is then mangled at every single site and at every
+   pair of sites (alphabet below) and by four global manglings.
    CONTROLS (one over a limit: names of 51 characters, common prefix of 2 characters, NEW rename names of 51 / 57 / 58
    characters) are not compliant and not whitespace-only defects: no verdict is demanded of them, only that
    validate_file returns (no exception) and that its return value agrees with the printed verdict.
@@ -16,8 +23,11 @@ O  canonical: validate_file() is True and prints "<path>: OK", with replace=True
    replace no `*.new` remains.  mangled (and accepted by parser 1): <= 5 replace passes until OK, the pass that says OK
    is the identity, one more real pass is the identity again, and the fixed point parses under parser 1 and parser 2
    to the structural dump of the mangled input under parser 1 (an observable may instead return to the reading of the
-   compliant file when the mangling itself had changed it, see ASSUMPTIONS).
-Violation signature: kind (+ exc/site/complaint/field) + mangling kind(s) + entry kind(s) of the mangled line(s) + reading.
+   compliant file when the mangling itself had changed it, see ASSUMPTIONS).  Where the two parsers already read the
+   COMPLIANT file differently (white-space-like characters inside quoted strings: property C04), each parser is judged
+   against itself: parser 2 must read the fixed point as it read the mangled input (or the compliant file).
+Violation signature: kind (+ exc/site/complaint/field) + mangling kind(s) + entry kind(s) of the mangled line(s) + reading
+(+ odd: character class @ kind of text, for the files of the odd-character family).
 """
 
 from __future__ import annotations
@@ -59,6 +69,18 @@ RULE = (
     "CONTROLS (no verdict demanded; must return, and return value == printed verdict): the boundary forests with names of 51 "
     "characters / a common prefix of 2 characters; rename files with a NEW name of 51, 57, 58 characters, alone and next to "
     "compliant lines. "
+    "ODD CHARACTERS: 1 forest (options with help text / `#` comments / string with prompt, default and '#' / string literal in a "
+    "condition, comment entry, menu with menuconfig and a named choice whose members have help texts) x both positions; text regions "
+    "= every non-blank help line, every quoted string of >= 2 characters outside `source` lines (mainmenu / prompts / defaults / "
+    "literals), every `#` comment line, every trailing `#` comment; the character replaces the first blank standing between two "
+    "words of the region, else goes between its first two characters (never first / last in a line or string). Characters: VT FF FS "
+    "GS RS NEL U+2028 U+2029 | US NBSP U+3000 | U+200B U+00E9 DEL | TAB (string regions only). (a) every (region, character) alone: "
+    "clause 1 only (OK, bytes unchanged, no *.new; parser 1 accepts), both tiers; (b) every region at once, per character (quick: TAB "
+    "FF NEL U+2028 NBSP U+00E9; thorough: all 15): clause 1 + all manglings as above (quick: single sites and same-line pairs, D=0; "
+    "thorough D=1). Rename files: 6 line sequences with comment lines / trailing comments x 14 characters (no TAB) x {each comment "
+    "alone, all at once}, all singles and pairs of manglings. Not generated: CR (a line end for every reader), escaped quotes and "
+    "backslashes (parser 2 reads them differently / does not terminate on some: C04), odd characters in the leading / trailing white "
+    "space of a line (then the indentation is not made of blanks). "
     "distinct outcome = (program, target, reading of the mangled file same as canonical?, passes needed, fixed-point bytes, "
     "failure classes)."
 )
@@ -80,6 +102,13 @@ ASSUMPTIONS = [
     "shorter than 120)",
     "in the boundary-name programs only DEFINED names are stretched; condition symbols that are merely referenced keep the "
     "short base name (the length rule is about options, and a reference defines none)",
+    "a character that str.splitlines() treats as a line boundary (VT FF FS GS RS NEL U+2028 U+2029), and any other non-ASCII / control "
+    "character except CR and LF, in the middle of a help line, a quoted string or a comment is ordinary text: the documented format "
+    "rules do not mention it, a file object iterated line by line and both parsers end lines at LF only. A tabulator between the quotes "
+    "of a string is data (kconfcheck/core.py LINE_ERROR_RULES: 'a tab inside a quoted string is data'), anywhere else a format defect",
+    "parser 2 reads white-space-like characters inside quoted strings differently from parser 1 already in the compliant file "
+    "(str.split() tokeniser, recorded under C04): for the odd-character family this is counted (canonical_parsers_disagree(C04)), not "
+    "alarmed, and the fixed point is compared per parser (parser 2 with parser 2's own reading of the mangled input / compliant file)",
     "option names are referenced before/without definition (APP_*_D / APP_K* condition symbols) so that every node's "
     "conditions identify the blocks it sits in; parser 2 needs `mainmenu`, so mainmenu-less bodies are sourced files",
 ]
